@@ -92,8 +92,9 @@ func certMain(args []string) {
 				r.l.Close()
 			}
 		}()
+		sni := ""
 		handshake := func(l sstls.Listener) string {
-			c, err := tls.DialWithDialer(&net.Dialer{Timeout: 3 * time.Second}, "tcp", l.Addr().String(), &tls.Config{InsecureSkipVerify: true})
+			c, err := tls.DialWithDialer(&net.Dialer{Timeout: 3 * time.Second}, "tcp", l.Addr().String(), &tls.Config{InsecureSkipVerify: true, ServerName: sni})
 			if nil != err {
 				return "dial:" + err.Error()
 			}
@@ -136,7 +137,19 @@ func certMain(args []string) {
 						complete, _ = os.ReadFile(cf)
 					}
 				}
+			case "listen_busy": /* a start that gets as far as binding and fails there (address already in use) */
+				if 0 != len(runs) {
+					before, _ := fileState(cf)
+					_, err := sstls.Listen("tcp", runs[0].l.Addr().String(), "", 0, cf)
+					after, _ := fileState(cf)
+					st["busy_failed"] = nil != err
+					st["file_same"] = before == after
+				}
 			case "probe": /* what does every run that is still up present NOW? */
+				sni = ""
+				if n, ok := op["sni"].(string); ok {
+					sni = n /* a client that connects by name */
+				}
 				var started, served []string
 				for _, r := range runs {
 					started = append(started, r.started)
